@@ -21,19 +21,22 @@ P(e, a, c) == F("pos", TRUE, e, a, c)
 
 WinC == {"none", "b", "e", "in", "empty", "beyond"}
 LcsC == {"none", "first", "last", "firstlast", "absent"}
+\* id universe of the generated inputs: APIDs APP1 AP2 A3 B, CTIDs CTX1 CT2 C3 T (lengths 4..1, zero padded in the messages);
+\* the filters name short and long ids, with the ctid shorter than the apid and vice versa, through every front-end
 EacC == { <<>>,
-          <<P("ECUA", "", "")>>, <<P("", "APP1", "")>>, <<P("", "", "CTX2")>>,
-          <<P("ECUB", "APP2", "")>>, <<P("ECUA", "APP1", "CTX1")>>,
-          <<P("ECUA", "", ""), P("", "APP2", "")>>, <<P("", "AP3", ""), P("", "", "CTX2")>>,
+          <<P("ECUA", "", "")>>, <<P("", "APP1", "")>>, <<P("", "", "CT2")>>,
+          <<P("ECUB", "AP2", "")>>, <<P("ECUA", "APP1", "C3")>>,
+          <<P("ECUA", "", ""), P("", "A3", "")>>, <<P("", "B", "CTX1"), P("", "", "T")>>,
           <<P("ECUX", "", "")>> }
 FfC == { [fmt |-> "none", ff |-> <<>>],
          [fmt |-> "dlf",  ff |-> <<P("", "APP1", "")>>],
          [fmt |-> "dlf",  ff |-> <<F("neg", TRUE, "ECUB", "", "")>>],
-         [fmt |-> "dlf",  ff |-> <<P("ECUA", "", ""), F("neg", TRUE, "", "", "CTX1")>>],
-         [fmt |-> "dlf",  ff |-> <<F("pos", FALSE, "", "APP1", ""), F("marker", TRUE, "", "APP2", "")>>],
-         [fmt |-> "dlf",  ff |-> <<P("", "APP2", "CTX2"), F("neg", FALSE, "ECUA", "", ""), P("ECUB", "", "")>>],
-         [fmt |-> "conv", ff |-> <<P("", "APP1", "CTX1")>>],
-         [fmt |-> "conv", ff |-> <<P("", "APP1", "CTX2"), P("", "AP3", "CTX1")>>] }
+         [fmt |-> "dlf",  ff |-> <<P("ECUA", "", ""), F("neg", TRUE, "", "", "C3")>>],
+         [fmt |-> "dlf",  ff |-> <<F("pos", FALSE, "", "APP1", ""), F("marker", TRUE, "", "AP2", "")>>],
+         [fmt |-> "dlf",  ff |-> <<P("", "AP2", "T"), F("neg", FALSE, "ECUA", "", ""), P("ECUB", "", "")>>],
+         [fmt |-> "conv", ff |-> <<P("", "APP1", "C3")>>],
+         [fmt |-> "conv", ff |-> <<P("", "AP2", "T"), P("", "B", "CTX1")>>],
+         [fmt |-> "conv", ff |-> <<P("", "A3", "CT2"), P("", "APP1", "CTX1")>>] }
 StyleC == {"a", "x", "s", "none"}
 
 OptSpace == [winc : WinC, lcsc : LcsC, eac : EacC, f : FfC, sort : BOOLEAN, style : StyleC, ofile : BOOLEAN]
@@ -48,8 +51,10 @@ EcuPatterns == { <<"A">>, <<"AB">>,
 \* "all": all files (the main clause - exactly the selected messages, each once - holds for such inputs too; only the
 \* argument-permutation clause is conditioned on distinct first reception times, so tied sets are run with one fixed
 \* argument order).  dup: the first file is named a second time (the tool de-duplicates identical files).
+\* jitter: timestamps are not monotone in reception order (every few messages carry a timestamp up to 2.5 s older than
+\* their neighbours - buffered messages, well inside the sorter's delay bound), so that --sort really permutes.
 ShapeSpace == {sh \in [ecus : EcuPatterns, boots : 1..3, garbage : BOOLEAN, noext : BOOLEAN,
-                        tie : {"none", "same", "all"}, dup : BOOLEAN] :
+                        tie : {"none", "same", "all"}, dup : BOOLEAN, jitter : BOOLEAN] :
                   sh.tie # "none" => (Len(sh.ecus) >= 2 /\ ~sh.dup)}
 \* (tie and dup are not combined: with tied first reception times the tool's sort-then-dedup does not bring the two
 \*  entries of the duplicated file next to each other and the file is read twice - observed on the unchanged tree,
